@@ -79,6 +79,9 @@ TableRow(n, it, itsrc, limit, offset, cols, b) ==
 \* a liquid tag: its body nodes are printed as line statements
 LiquidTag(b) == [k |-> "liquid", body |-> b, wc |-> W0]
 
+Extends(name) == [k |-> "extends", name |-> name, wc |-> W0]
+Block(n, required, b) == [k |-> "block", n |-> n, required |-> required, body |-> b, endname |-> n, wc |-> W0, ewc |-> W0]
+
 \* configuration record (defaults of Environment)
 Cfg(trim, suppress, ae, undef) ==
   [trim |-> trim, suppress |-> suppress, autoescape |-> ae, undef |-> undef, depthlimit |-> 30, shopify |-> FALSE]
